@@ -606,6 +606,7 @@ def verify(contract, timeout_ms=20000, case_filter=None, mutate=None, verbose=Fa
         rep.solver_s += ex.branch_solver_s
         n_live = 0
         outcomes = {}
+        outcomes_infeasible = {}
         for pi, p in enumerate(paths):
             rep.axioms_used |= p.axioms_used
             if p.outcome == 'abort' and not (p.aborted or '').startswith('loop cut') and 'loop' not in (p.aborted or ''):
@@ -630,8 +631,9 @@ def verify(contract, timeout_ms=20000, case_filter=None, mutate=None, verbose=Fa
                 rep.results.append(r)
                 if verbose:
                     print('   %-60s %-8s %s %.3fs' % (ob.name, st, be, secs))
-            # vacuity guard: the hypotheses of a path (path condition, assumed library contracts with their quantified axioms,
-            # lemmas assumed after being proved) must not be contradictory, or every obligation on it would hold trivially
+            # vacuity guard: a path whose hypotheses (path condition, assumed library contracts with their quantified axioms,
+            # lemmas assumed after being proved) are contradictory is infeasible and proves nothing; such paths do not count
+            # towards the reachability covers below
             if p.outcome != 'abort' and p.obligations:
                 last = p.obligations[-1]
                 sv = z3.Solver()
@@ -643,12 +645,14 @@ def verify(contract, timeout_ms=20000, case_filter=None, mutate=None, verbose=Fa
                 rep.solver_s += time.time() - t1
                 rep.consistency_probes = getattr(rep, 'consistency_probes', 0) + 1
                 if rv == z3.unsat:
-                    rep.errors.append('%s: hypotheses of path %d are contradictory (every obligation on it is vacuous)' % (label, pi))
+                    rep.infeasible_paths = getattr(rep, 'infeasible_paths', 0) + 1
+                    lab_ = 'return' if p.outcome == 'return' and p.value.kind == 'return' else 'raise:' + p.value.exc.cls.name
+                    outcomes_infeasible[lab_] = outcomes_infeasible.get(lab_, 0) + 1
         rep.paths += n_live
         rep.cases.append({'label': label, 'paths': n_live, 'outcomes': outcomes})
         for want in contract.expected_outcomes(case):
             key = '%s:%s' % (label, want)
-            rep.covers[key] = outcomes.get(want, 0) > 0
+            rep.covers[key] = outcomes.get(want, 0) - outcomes_infeasible.get(want, 0) > 0
     rep.wall_s = time.time() - t_start
     return rep
 
